@@ -36,6 +36,16 @@ def log(*a):
     print(*a, file=sys.stderr, flush=True)
 
 
+def wide(tier):
+    """the lattices that used to be reserved for the thorough tier: they turned out cheap enough (seconds) to run on every change"""
+    return True
+
+
+def deep(tier):
+    """extensions that only the thorough tier runs"""
+    return tier == "thorough"
+
+
 def wisdom_state():
     """names, sizes and modification times of the FFTW wisdom files.  Inovesa plans with FFTW_PATIENT (timing dependent) and caches the plan
     per transform length in one file; a file written *while* runs are in flight means that runs of that length may have computed with
@@ -116,13 +126,25 @@ class Result:
             for k, v in d.get("texts", {}).items():
                 self.coverage[k] = v
             for v in d["violations"]:
-                self.violate(v["key"], v["case"], v["detail"], replay=dict(harness=d["harness"], case=v["case"], extra=extra or []),
+                self.violate(v["key"], v["case"], v["detail"], replay=dict(harness=d["harness"], case=v["case"], extra=extra or [],
+                                                                              shard="%d/%d" % (d.get("shard", 0), d.get("nshards", 1))),
                              count=v["count"])
         self.distinct |= hashes
 
 
-def run_harness(res, name, tier, extra=None, kind="plain", nshards=None, deadline=None, timeout=None, warm=False):
-    """build harness `name`, run it in `nshards` processes, merge the shard reports into res"""
+def run_harness(res, name, tier, extra=None, kind="plain", nshards=None, deadline=None, timeout=None, warm=False, blocks=(1, 8)):
+    """build harness `name`, run it in `nshards` processes, merge the shard reports into res.
+    The cases of a shard run in ONE process, one after the other: every case is thereby also checked in a process that has built and used other
+    objects before (state carried from object to object - function-local statics, caches - shows up as a case that fails in company and passes
+    alone).  The enumeration is dealt to the shards twice: round robin (far-apart cases share a process) and in blocks of 8 consecutive cases
+    (neighbouring cases, which differ in the fastest-varying parameters only, share a process)."""
+    docs = []
+    for bi, b in enumerate(blocks):
+        docs += _run_harness_pass(res, name, tier, (list(extra or []) + (["--block", str(b)] if b != 1 else [])), kind, nshards, deadline, timeout, warm and bi == 0)
+    return docs
+
+
+def _run_harness_pass(res, name, tier, extra=None, kind="plain", nshards=None, deadline=None, timeout=None, warm=False):
     exe = build.build_harness(name, kind)
     nshards = nshards or NJOBS
     wd = os.path.join(WORK, name + "-" + kind)
@@ -190,6 +212,20 @@ def replay_harness(name, case, kind="plain", tier="quick", extra=None):
     out = os.path.join(wd, "replay.json")
     r = subprocess.run([exe, "--tier", tier, "--case", case, "--out", out] + list(extra or []), capture_output=True, text=True, env=env(), cwd=wd)
     sys.stderr.write(r.stderr[-4000:])
+    if r.returncode != 0 or not os.path.exists(out):
+        return None
+    with open(out) as f:
+        return json.load(f)
+
+
+def replay_harness_shard(name, shard, kind="plain", tier="quick", extra=None):
+    """re-run one whole shard (the cases of a shard run in ONE process, in enumeration order): the replay of a violation that needs the history of
+    the process - state that survives from one object to the next (function-local statics, caches, global tables)"""
+    exe = build.build_harness(name, kind)
+    wd = os.path.join(WORK, name + "-" + kind)
+    os.makedirs(wd, exist_ok=True)
+    out = os.path.join(wd, "replay_shard.json")
+    r = subprocess.run([exe, "--tier", tier, "--shard", shard, "--out", out] + list(extra or []), capture_output=True, text=True, env=env(), cwd=wd)
     if r.returncode != 0 or not os.path.exists(out):
         return None
     with open(out) as f:
